@@ -124,6 +124,7 @@ class Profile:
     final_barline: str = 'random'
     p_pickup: float = 0.2
     bar_numbers: float = 0.6
+    p_bar_type: float = 0.5              # probability that a barline has a drawn type (||, :|!|: ...) and, scaled, a fermata
     p_odd_numbering: float = 0.3         # measure numbers that do not count 1, 2, 3 ...: an offset, leading zeros, repeats, any order
     p_bar_suffix: float = 0.0            # explored class (C03): the marks the grammar tolerates at the end of a barline (j . ?)
     p_hidden_bar: float = 0.0            # invisible barlines (=-, =1-): only the measure-structure checks turn this on
@@ -381,8 +382,8 @@ class _Gen:
         self.measure_no += 1
         eq = '==' if double else '='
         num = self.written_number() if (rng.random() < p.bar_numbers and not double) else ''
-        typ = rng.choice(BAR_TYPES) if rng.random() < 0.5 else ''
-        ferm = ';' if rng.random() < 0.07 else ''
+        typ = rng.choice(BAR_TYPES) if rng.random() < p.p_bar_type else ''
+        ferm = ';' if rng.random() < 0.07 * (p.p_bar_type / 0.5) else ''
         hidden = (not double) and p.p_hidden_bar > 0 and rng.random() < p.p_hidden_bar
         if hidden:
             self.doc.tags.add('hidden_barlines')
